@@ -12,14 +12,20 @@ def alloc_query(pid, op, size=64, timeout=900):
 
 def plan(tier, seed):
     size = 64 if tier != 'thorough' else 256
-    return [alloc_query('C14', op, size if op != 3 else max(size, 160)) for op in OPS]
+    qs = [alloc_query('C14', op, size if op != 3 else max(size, 160)) for op in OPS]
+    # the real expert driver down to the start of the workers: caller workspace of any size / alignment (refusal, retries with
+    # halved requests, success) and the system allocator refusing the factor arrays from any request on
+    from props.C17 import leakdrv_plan
+    qs += [q for q in leakdrv_plan('C14', tier, seed) if '.s2.' in q.name or '.s3.' in q.name]
+    return qs
 
 META = {
     'level': 'model_checking',
     'engines': 'E1: cbmc 6.11 bit-precise (MiniSat / kissat)',
     'bounds': {'buffer': 'lwork 0..64 bytes (thorough: 256), any base alignment 0..7', 'requests': '0..size+8 bytes', 'WorkInit': 'n 1..3, w 1..2, maxsuper/rowblk 1..2',
-               'state': 'arbitrary (top1, top2, used) satisfying the representation invariant, with one live block of another owner at each end'},
-    'outside': ['system-malloc mode (plain malloc/free)', 'the memory-expansion branch of p?gstrf_expand (documented as not implemented in SuperLU_MT)',
+               'state': 'arbitrary (top1, top2, used) satisfying the representation invariant, with one live block of another owner at each end',
+    'driver': 'real pdgssvx + sp_colorder + pdgstrf_thread_init + ParallelInit + PresetMap + MemInit, n=2,3, 8 patterns, NC/NR, symmetric mode on/off, lwork 1..80n^2 bytes at any alignment (the whole range from nothing fits to everything fits), or the system allocator refusing every MemInit request from the k-th on (k symbolic)'},
+    'outside': ['system-malloc mode of the per-thread work arrays', 'the memory-expansion branch of p?gstrf_expand (documented as not implemented in SuperLU_MT)',
                 'buffers larger than the bound (the arithmetic is linear in the sizes)'],
     'assumptions': ['pdmemory.c compiled with -Dstatic= so the harness can set the file-scope allocator state (no other change)',
                     'the stack lock is a no-op: each allocator call is one atomic step'],
